@@ -408,13 +408,9 @@ Print Assumptions C09_trie_allRegistrations_exact.
 (* all histories: the nested-dictionary run and the flat run answer registered / subscribed / lookup /
    subscriptions identically, lookupAll identically as maps, allRegistrations identically as sets, and
    carry identical _provided counts, extendors and generation.
-   PARTIAL in one respect (hence no claim about allSubscriptions as sets, and the flat run is the lockstep
-   one): that the nested enumeration is a permutation of the flat listing keeping each subscription key's
-   order — which would identify the lockstep flat run with [brun] THROUGH rebuild() via
-   C09_replay_preserves — is not proved here (it needs NoDup of _all_entries and the invariant that a
-   subscriber leaf dictionary has the single key ''); it is checked on every run by the tie
-   (Tie/C09.listing_matches).  Without rebuild() the two flat runs coincide
-   (C09_trie_lockstep_is_brun_without_rebuild). *)
+   The flat run here is the lockstep one (rebuild() replays in nested order); C09_trie_answers_ledger and
+   C09_trie_unambiguous_as_flat below remove the device: the nested run is compared with the plain
+   flat run [brun] and with the ledger, through rebuild(). *)
 Theorem C09_trie_refines_flat : forall W ops,
   let t := t_brun W ops in
   let r := snd (lock_run W ops) in
@@ -459,3 +455,118 @@ Example ex_trie_rebuild_order :
   /\ t_uncached_lookup W0 [t_rebuild W0 (t_brun W0 h_amb)] [2] 0 0 = Some (mkV 22 22)
   /\ t_uncached_lookup W0 [t_rebuild W0 (t_brun W0 h_amb)] [2] 4 0 = Some (mkV 22 22).
 Proof. repeat split; reflexivity. Qed.
+
+(* ====================================================================================================
+   Closing the gap through rebuild(): the nested enumeration is a NoDup-key permutation of the flat
+   listings that keeps each subscription key's order (Proofs/TrieEnum.v: NoDup of _all_entries key
+   paths from TrieInv; invariant [sk]: a subscriber leaf dictionary only ever has the key '').
+   ==================================================================================================== *)
+From ZI Require Import Proofs.TrieEnum.
+
+(* a subscriber leaf dictionary only ever has the key '' *)
+Theorem C09_trie_subscriber_leaf_key : forall W ops i q x,
+  length q = S (S i) -> tfind q (order_get (t_subscribers (t_brun W ops)) i) = Some x -> nth (S i) q 0 = 0.
+Proof.
+  intros W ops. pose proof (lock_run_R2 W ops) as [_ K]. rewrite sim_run_trie in K. exact K.
+Qed.
+Print Assumptions C09_trie_subscriber_leaf_key.
+
+(* the enumerations of the nested dictionaries: keys once each, permutations of the flat listings,
+   each subscription key's subscribers in order — for any related pair (hence after any history) *)
+Theorem C09_trie_enumeration_is_permutation : forall W t r, R W t r -> sk t ->
+  NoDup (map fst (t_allRegistrations t))
+  /\ Permutation (t_allRegistrations t) (allRegistrations r)
+  /\ Permutation (t_allSubscriptions t) (allSubscriptions r)
+  /\ (forall k, map snd (filter (fun kv : skey * value => skey_eqb (fst kv) k) (t_allSubscriptions t))
+               = sub_leaf r k).
+Proof.
+  intros W t r HR K. pose proof HR as ((Ba & Bs & _) & _ & _ & Sf & _).
+  split; [apply t_allRegistrations_nodup; auto|].
+  split; [apply (t_allRegistrations_perm W t r HR)|].
+  split; [apply (t_allSubscriptions_perm W t r (conj HR K))|].
+  intros k. rewrite t_allSubscriptions_proj; auto.
+Qed.
+Print Assumptions C09_trie_enumeration_is_permutation.
+
+(* hence rebuild() as the CODE does it (replay in nested order) preserves both maps with exact counts:
+   C09_replay_preserves applies to the real order *)
+Theorem C09_trie_nested_rebuild_preserves : forall W t r r0, R W t r -> sk t -> storage_empty r0 ->
+  let r' := replay_into W r0 (t_allRegistrations t) (t_allSubscriptions t) in
+  (forall k, aget akey_eqb (adapters r') k = aget akey_eqb (adapters r) k)
+  /\ (forall k, sub_leaf r' k = sub_leaf r k)
+  /\ (forall q, cnt_get (provided_cnt r') q = live_count r q).
+Proof.
+  intros W t r r0 HR K E r'.
+  destruct (nested_replay_preserves W t r r0 (conj HR K) E) as (_ & [A S] & C). auto.
+Qed.
+Print Assumptions C09_trie_nested_rebuild_preserves.
+
+(* the nested-dictionary run answers the LEDGER, for all histories including rebuild():
+   registered, subscribed, allRegistrations (exactly the live keys, each once), allSubscriptions (per key
+   the live subscribers in order); its listings are permutations of the plain flat run's *)
+Theorem C09_trie_answers_ledger : forall W ops,
+  let t := t_brun W ops in
+  (identity_ok (avalues ops) -> forall req p n, t_registered t req p n = aledger ops (akey_of req p n))
+  /\ (forall req p v, t_subscribed t req p v = existsb (fun x => v_eq x v) (sledger ops (skey_of req p)))
+  /\ (identity_ok (avalues ops) -> forall k v, In (k, v) (t_allRegistrations t) <-> aledger ops k = Some v)
+  /\ (forall k, map snd (filter (fun kv : skey * value => skey_eqb (fst kv) k) (t_allSubscriptions t)) = sledger ops k)
+  /\ NoDup (map fst (t_allRegistrations t))
+  /\ Permutation (t_allRegistrations t) (allRegistrations (brun W ops))
+  /\ Permutation (t_allSubscriptions t) (allSubscriptions (brun W ops)).
+Proof. exact trie_ledger_lemma. Qed.
+Print Assumptions C09_trie_answers_ledger.
+
+(* ... and every unambiguous lookup / subscriptions query exactly as the plain flat run [brun] does,
+   through rebuild() (no lockstep device) *)
+Theorem C09_trie_unambiguous_as_flat : forall W ops required, identity_ok (avalues ops) ->
+  (forall p n, unamb_lookup W (aledger ops) required p n ->
+     t_uncached_lookup W [t_brun W ops] required p n = uncached_lookup W [brun W ops] required p n)
+  /\ (world_ok W -> forall p,
+        match p with Some p' => unamb_subs W (sledger ops) required p' | None => True end ->
+        t_uncached_subscriptions W [t_brun W ops] required p = uncached_subscriptions W [brun W ops] required p).
+Proof. exact trie_unambiguous_lemma. Qed.
+Print Assumptions C09_trie_unambiguous_as_flat.
+
+(* FOR CONSUMERS (C04/C05/C06/C07 rebuild streams): the order of a replay is irrelevant for unambiguous
+   queries.  For a registry r satisfying the invariant of reachable storages and any two listings that are
+   permutations of r's listings keeping each subscription key's order (the flat order of Model/Adapter.rebuild
+   and the nested order of the code are two such), the two replayed registries answer every unambiguous
+   lookup identically — and as r itself — and every unambiguous subscriptions query identically. *)
+Theorem C09_rebuild_order_irrelevant_for_unambiguous :
+  forall W r r1 r2 regs1 subs1 regs2 subs2 required,
+  inv W r -> storage_empty r1 -> storage_empty r2 ->
+  Permutation regs1 (allRegistrations r) -> Permutation subs1 (allSubscriptions r) ->
+  (forall k, map snd (filter (fun kv => skey_eqb (fst kv) k) subs1) = sub_leaf r k) ->
+  Permutation regs2 (allRegistrations r) -> Permutation subs2 (allSubscriptions r) ->
+  (forall k, map snd (filter (fun kv => skey_eqb (fst kv) k) subs2) = sub_leaf r k) ->
+  (forall p n, unamb_lookup W (fun k => aget akey_eqb (adapters r) k) required p n ->
+     uncached_lookup W [replay_into W r1 regs1 subs1] required p n
+     = uncached_lookup W [replay_into W r2 regs2 subs2] required p n
+     /\ uncached_lookup W [replay_into W r1 regs1 subs1] required p n = uncached_lookup W [r] required p n)
+  /\ (world_ok W -> forall p,
+        match p with Some p' => unamb_subs W (fun k => sub_leaf r k) required p' | None => True end ->
+        uncached_subscriptions W [replay_into W r1 regs1 subs1] required p
+        = uncached_subscriptions W [replay_into W r2 regs2 subs2] required p).
+Proof. exact order_irrelevant_lemma. Qed.
+Print Assumptions C09_rebuild_order_irrelevant_for_unambiguous.
+
+(* the hypothesis [inv W r] above holds for every registry of every system reachable in Model/RegSys
+   (so the theorem applies to the rs_reg of any RegSys history), as does NoDup of the extendors lists *)
+Theorem C09_regsys_reachable_inv : forall W call ops i,
+  inv W (rs_reg (get (final W call [] ops) i))
+  /\ (world_ok W -> nd (rs_reg (get (final W call [] ops) i))).
+Proof. exact regsys_reachable_inv. Qed.
+Print Assumptions C09_regsys_reachable_inv.
+
+(* non-vacuity of the order-irrelevance theorem: flat order and nested order of h_amb *)
+Example ex_order_irrelevant :
+  inv W0 (brun W0 h_amb) /\ storage_empty (fresh_reg 0)
+  /\ Permutation nested_order (allRegistrations (brun W0 h_amb))
+  /\ nested_order <> allRegistrations (brun W0 h_amb)
+  /\ t_allRegistrations (t_brun W0 h_amb) = nested_order
+  /\ uncached_lookup W0 [replay_into W0 (fresh_reg 0) nested_order (allSubscriptions (brun W0 h_amb))] [2] 4 0
+     = uncached_lookup W0 [rebuild W0 (brun W0 h_amb)] [2] 4 0.
+Proof.
+  split; [apply inv_brun|]. split; [repeat split|]. split; [apply ex_ambiguous_lookup_may_differ|].
+  split; [discriminate|]. split; reflexivity.
+Qed.
